@@ -205,7 +205,10 @@ def r_id(e, R):
     for q in e.reach([w.qualname]):
         hf = e.prog.funcs[q]
         for c in [x for x in func_nodes(hf) if isinstance(x, ast.Call)]:
-            if isinstance(c.func, ast.Attribute) and c.func.attr == "put" and c.args:
+            fn_ = c.func
+            if isinstance(fn_, ast.Name) and len(e.local_defs(hf, fn_.id)) == 1:
+                fn_ = e.local_defs(hf, fn_.id)[0]              # `put = result_queue.put` bound once to a local
+            if isinstance(fn_, ast.Attribute) and fn_.attr == "put" and c.args:
                 cl = {o[2] for o in e.objs(hf, c.args[0]) if o[0] == "obj" and o[2] in e.prog.classes and "__init__" in e.prog.classes[o[2]].methods
                       and len(e.prog.classes[o[2]].methods["__init__"].params) >= 4}
                 if cl:
@@ -222,6 +225,9 @@ def r_id(e, R):
             return "none"
         if isinstance(x, ast.Attribute) and isinstance(x.value, ast.Name) and x.value.id == item and f is w:
             return "id" if x.attr == id_attr else "?" + x.attr
+        if isinstance(x, ast.Call) and x.args and isinstance(x.args[0], ast.Name) and any(
+                isinstance(h, ast.ExceptHandler) and h.name == x.args[0].id for h in func_nodes(f)):
+            return "error"          # the wrapper built in place around the caught exception
         if isinstance(x, ast.Name):
             if x.id in env:
                 return env[x.id]
